@@ -206,6 +206,11 @@ def slice_with_newaxes(out_name, in_name, blockdims, index):
         for k, v in dsk.items():
             if k[0] == out_name:
                 k2 = (out_name,) + expand(k[1:], 0)
+                if isinstance(v, Alias):
+                    # positional indexing selecting the whole axis in order
+                    arg = expand((slice(None),) * (len(k) - 1), None)
+                    dsk2[k2] = Task(k2, getitem, TaskRef(v.target), arg)
+                    continue
                 if v.func is concatenate_arrays:
                     # positional indexing merging several input chunks:
                     # insert the new axes into the merged block
